@@ -838,6 +838,8 @@ package proxy
 //@ func (*backendPlaySessionHandler).handleAvailableCommands$1
 //@   props C23
 //@   at-call Name#1 as nm: assert arg0 == node
+//@   at-call Children as ch
+//@   at-call maplookup as lk: assert [backend-node-looked-up-under-the-proxy-nodes-own-name] called(nm) && called(ch) && arg0 == res(ch) && streq(arg1, res(nm))
 //@   at-call RemoveChild as rm: assert [same-name-backend-node-is-replaced] !isnil(existingServerChild)
 //@   at-call AddChild as add: assert [proxy-node-added-to-the-backend-root] len(arg1) == 1 && arg1[0] == node
 //@   ensures [every-filtered-proxy-node-is-merged] called(add) && result
